@@ -1,4 +1,5 @@
 """C09 — a reused Resizer behaves like a fresh one: scratch-buffer discipline (clauses)."""
+import re
 from ..cfg import Dom, reachable_from
 from ..engines import flow
 from ..engines.ranges import strip_widen
@@ -192,6 +193,48 @@ def sizing(rep, prog, rule):
                                                        fmt(src) if src else "?"))
 
 
+BUF_WORDS = ("alpha_buffer", "convolution_buffer", "super_sampling_buffer")
+
+
+def state_independence(rep, prog, rule):
+    rep.rule(rule, "no branch of the Resizer depends on how large an earlier call left a scratch "
+             "buffer: len() / capacity() / is_empty() of alpha_buffer, convolution_buffer, "
+             "super_sampling_buffer (or of a buffer taken from them) feed only the grow test "
+             "`buffer.len() < needed` of get_temp_image_from_buffer and the arithmetic of "
+             "size_of_internal_buffers; any other control dependence makes a reused Resizer "
+             "behave differently from a fresh one")
+    n = 0
+    for f in sorted(prog.fns.values(), key=lambda x: x.id):
+        if f.file != "src/resizer.rs":
+            continue
+        if f.name.rsplit("::", 1)[-1] in ("reset_internal_buffers", "size_of_internal_buffers"):
+            continue        # buffer management itself: releases / measures the buffers
+        sym = Sym(f)
+        seen = set()
+        is_helper = f.name.endswith("get_temp_image_from_buffer")
+        for (p_, s_, cond, val) in sym.edge_facts():
+            s = fmt(cond)
+            m = re.search(r"\b(len|capacity|is_empty)\(([^()]*(?:\([^()]*\))?[^()]*)\)", s)
+            if not m:
+                continue
+            recv = m.group(2)
+            buffered = any(w in recv for w in BUF_WORDS) or (is_helper and "buffer" in recv)
+            if not buffered or (p_, s) in seen:
+                continue
+            seen.add((p_, s))
+            n += 1
+            rep.touch(f)
+            key = "%s|%s" % (f.name, s[:60])
+            if is_helper and cond[0] == "bin" and cond[1] in ("Lt", "Le", "Gt", "Ge") and "len(" in s:
+                rep.ok(rule, key, f.loc, "grow test %s" % s[:100])
+            else:
+                rep.bad(rule, key + "|history", f.loc, "%s branches on %s: the size of a scratch "
+                        "buffer depends on the images this Resizer processed before, so the same "
+                        "resize gives a different result (or takes a different code path) on a "
+                        "reused Resizer than on a fresh one" % (f.name, s[:140]))
+    rep.floor(rule, "branches on scratch-buffer sizes", n, 1)
+
+
 def run(rep, tier):
     cfgs = ["x86"] if tier == "quick" else ["x86", "x86-rayon", "arm", "wasm"]
     for cfg, prog in programs(cfgs):
@@ -199,3 +242,4 @@ def run(rep, tier):
         rep.call(write_before_read, rep, prog, "C09.write-before-read")
         rep.call(slack, rep, prog, "C09.slack")
         rep.call(sizing, rep, prog, "C09.sizing")
+        rep.call(state_independence, rep, prog, "C09.state-independence")
